@@ -104,9 +104,23 @@ def generate(seed, tier, index):
             ops.append(["kinetics", entries, ac, gen.draw_us(ru)])
         ops += [["drive", [["iterate"], ["observe"]], C.fixed_steps_needed(sp) + 3], ["output"], ["finalize"]]
         eps.append({"obj": r % 2, "kind": "euler", "via": rf.choice(["LibRDEngine", "factory"]), "script": r, "ops": ops})
+    if rf.chance(0.2):
+        # earlier in the process the caller ran the same model on a molecule-counting engine, with a script written in the
+        # units system of one of the renderings (the caller holds ONE UnitsSystem object per distinct units system): the
+        # engine works in molecules internally, the caller's units object stays what it is
+        import copy
+        r0 = rf.randint(0, nr - 1)
+        w = copy.deepcopy(scripts[r0])
+        w.pop("post_units", None)
+        w["phys"]["kind"] = "tauleap"
+        w["phys"]["eu"] = gen.engine_units(w["phys"]["us"], "tauleap")
+        w["script"]["units_system"] = dict(scripts[r0].get("post_units") or scripts[r0]["script"]["units_system"])
+        scripts.append(w)
+        eps.insert(0, {"obj": 2, "kind": "tauleap", "via": "LibRDEngine", "script": len(scripts) - 1,
+                       "ops": [["setup"], ["iterate_n", 2], ["finalize"]], "warm": True})
     return {"format": 1, "property": ID, "seed": seed, "tier": tier, "index": index, "build": "plain",
             "scripts": scripts, "lifetimes": [{"pyseed": 1, "episodes": eps}],
-            "meta": {"renderings": nr, "styles": [s["phys"]["style"] for s in scripts], "coobs": coobs}}
+            "meta": {"renderings": nr, "styles": [s["phys"]["style"] for s in scripts[:nr]], "coobs": coobs}}
 
 
 def check(case, results):
@@ -118,6 +132,9 @@ def check(case, results):
     ref = None
     nontrivial = 0
     for ei, ep in enumerate(case["lifetimes"][0]["episodes"]):
+        if ep.get("warm"):
+            stats["prehistory_stochastic_run_in_the_same_units_object"] = 1
+            continue
         entry = case["scripts"][ep["script"]]
         phys = entry["phys"]
         stats["styles"][phys["style"]] = stats["styles"].get(phys["style"], 0) + 1
